@@ -26,7 +26,7 @@ theorem inv_init (n : Nat) : VInv (init n) := by
   · intro e he
     simp only [init, List.mem_map] at he
     obtain ⟨i, hi, rfl⟩ := he
-    exact ⟨fun _ => List.mem_of_mem_take hi, fun h => absurd h (by decide)⟩
+    exact ⟨fun _ => List.mem_of_mem_take hi, fun h => absurd h (by simp)⟩
   · intro id h; left; simpa [init] using h
 
 theorem inv_sendNext (s : VState) (h : VInv s) (honesty : Option Nat) : VInv (s.sendNext honesty) := by
@@ -49,7 +49,7 @@ theorem inv_sendNext (s : VState) (h : VInv s) (honesty : Option Nat) : VInv (s.
       simp only [List.mem_append, List.mem_singleton] at he
       rcases he with he | rfl
       · exact h.pend e he
-      · exact ⟨fun _ => List.mem_of_find?_eq_some hc, fun hv => absurd hv (by decide)⟩
+      · exact ⟨fun _ => List.mem_of_find?_eq_some hc, fun hv => absurd hv (by simp)⟩
 
 theorem inv_onTimeout (s : VState) (h : VInv s) (id : Nat) : VInv (s.onTimeout id) := by
   refine ⟨h.un_nodup, h.un_lt, ?_, h.rel, h.log_nodup, h.log_lt, h.cover⟩
@@ -60,6 +60,61 @@ theorem inv_onTimeout (s : VState) (h : VInv s) (id : Nat) : VInv (s.onTimeout i
 theorem inv_congr {s s' : VState} (h : VInv s) (h1 : s'.n = s.n) (h2 : s'.unanswered = s.unanswered)
     (h3 : s'.pending = s.pending) (h4 : s'.relmap = s.relmap) (h5 : s'.log = s.log) : VInv s' := by
   unfold VInv; rw [h1, h2, h3, h4, h5]; exact h
+
+theorem inv_afterAnswer (s : VState) (h : VInv s) (id' r : Nat) (hc : Int) (hmem : (id', hc) ∈ s.pending) :
+    VInv (s.afterAnswer id' r hc) := by
+  have hp := h.pend _ hmem
+  unfold afterAnswer
+  simp only []
+  by_cases hneg : hc < 0
+  · rw [if_pos hneg]
+    have hin : id' ∈ s.unanswered := hp.1 hneg
+    have hnl : id' ∉ s.log.map Prod.fst := fun hl => (h.log_lt _ hl).2 hin
+    refine ⟨h.un_nodup.erase _, fun x hx => h.un_lt x (List.mem_of_mem_erase hx), ?_, ?_, ?_, ?_, ?_⟩
+    · intro e he
+      have he' := List.mem_filter.mp he
+      have hne : e.1 ≠ id' := by simpa using he'.2
+      exact ⟨fun hv => (List.mem_erase_of_ne hne).mpr ((h.pend e he'.1).1 hv), (h.pend e he'.1).2⟩
+    · show s.relmap.bump r = aggregate ((s.log ++ [(id', r)]).map Prod.snd)
+      rw [List.map_append, List.map_singleton, aggregate_snoc, ← h.rel]
+    · show ((s.log ++ [(id', r)]).map Prod.fst).Nodup
+      rw [List.map_append, List.map_singleton]
+      exact List.Nodup.append h.log_nodup (List.nodup_singleton _) (by
+        intro a ha hb
+        simp only [List.mem_singleton] at hb
+        exact hnl (hb ▸ ha))
+    · intro x hx
+      have hx' : x ∈ s.log.map Prod.fst ∨ x = id' := by
+        simpa [List.map_append] using hx
+      rcases hx' with hx' | rfl
+      · exact ⟨(h.log_lt x hx').1, fun hm => (h.log_lt x hx').2 (List.mem_of_mem_erase hm)⟩
+      · exact ⟨h.un_lt _ hin, fun hm => ((List.Nodup.mem_erase_iff h.un_nodup).mp hm).1 rfl⟩
+    · intro x hx
+      by_cases hxe : x = id'
+      · right; subst hxe; simp [List.map_append]
+      · rcases h.cover x hx with hu | hl
+        · left; exact (List.mem_erase_of_ne hxe).mpr hu
+        · right; simp only [List.map_append, List.mem_append]; left; exact hl
+  · rw [if_neg hneg]
+    have hge : s.n ≤ id' := hp.2 (by omega)
+    have hnot : id' ∉ s.unanswered := fun hm => by have := h.un_lt _ hm; omega
+    have herase : s.unanswered.erase id' = s.unanswered := List.erase_of_not_mem hnot
+    have base : VInv { s with pending := s.pending.filter (fun e => e.1 != id'),
+                              unanswered := s.unanswered.erase id' } := by
+      refine ⟨by rw [herase]; exact h.un_nodup, by rw [herase]; exact h.un_lt, ?_, h.rel, h.log_nodup,
+        by rw [herase]; exact h.log_lt, by rw [herase]; exact h.cover⟩
+      intro e he
+      rw [herase]
+      exact h.pend e (List.mem_of_mem_filter he)
+    split
+    · exact inv_congr base rfl rfl rfl rfl rfl
+    · exact base
+
+theorem inv_finish (s : VState) (h : VInv s) (honesty : Option Nat) : VInv (s.finish honesty) := by
+  unfold finish
+  split
+  · exact inv_congr h rfl rfl rfl rfl rfl
+  · exact inv_sendNext s h honesty
 
 theorem inv_onResponse (s : VState) (h : VInv s) (id r : Nat) (honesty : Option Nat) :
     VInv (s.onResponse id r honesty) := by
@@ -72,64 +127,7 @@ theorem inv_onResponse (s : VState) (h : VInv s) (id r : Nat) (honesty : Option 
       have := List.find?_some hfind
       simpa using this
     subst hid
-    have hp := h.pend _ hmem
-    -- the state after pop / removal / counting
-    have core : VInv
-        (if hc < 0 then
-          { s with pending := s.pending.filter (fun e => e.1 != id'), unanswered := s.unanswered.erase id',
-                   relmap := s.relmap.bump r, log := s.log ++ [(id', r)] }
-         else if (r : Int) ≠ hc then
-          { s with pending := s.pending.filter (fun e => e.1 != id'), unanswered := s.unanswered.erase id',
-                   liar := true, completions := s.completions ++ [Rel.empty] }
-         else { s with pending := s.pending.filter (fun e => e.1 != id'), unanswered := s.unanswered.erase id' }) := by
-      by_cases hneg : hc < 0
-      · rw [if_pos hneg]
-        have hin : id' ∈ s.unanswered := hp.1 hneg
-        have hnl : id' ∉ s.log.map Prod.fst := fun hl => (h.log_lt _ hl).2 hin
-        refine ⟨h.un_nodup.erase _, fun x hx => h.un_lt x (List.mem_of_mem_erase hx), ?_, ?_, ?_, ?_, ?_⟩
-        · intro e he
-          have he' := List.mem_filter.mp he
-          have hne : e.1 ≠ id' := by simpa using he'.2
-          exact ⟨fun hv => (List.mem_erase_of_ne hne).mpr ((h.pend e he'.1).1 hv), (h.pend e he'.1).2⟩
-        · show s.relmap.bump r = aggregate ((s.log ++ [(id', r)]).map Prod.snd)
-          rw [List.map_append, List.map_singleton, aggregate_snoc, ← h.rel]
-        · show ((s.log ++ [(id', r)]).map Prod.fst).Nodup
-          rw [List.map_append, List.map_singleton]
-          exact List.Nodup.append h.log_nodup (List.nodup_singleton _) (by
-            intro a ha hb
-            simp only [List.mem_singleton] at hb
-            exact hnl (hb ▸ ha))
-        · intro x hx
-          have hx' : x ∈ s.log.map Prod.fst ∨ x = id' := by
-            simpa [List.map_append] using hx
-          rcases hx' with hx' | rfl
-          · exact ⟨(h.log_lt x hx').1, fun hm => (h.log_lt x hx').2 (List.mem_of_mem_erase hm)⟩
-          · exact ⟨h.un_lt _ hin, fun hm => (List.Nodup.mem_erase_iff h.un_nodup).mp hm |>.1 rfl⟩
-        · intro x hx
-          by_cases hxe : x = id'
-          · right; subst hxe; simp [List.map_append]
-          · rcases h.cover x hx with hu | hl
-            · left; exact (List.mem_erase_of_ne hxe).mpr hu
-            · right; simp only [List.map_append, List.mem_append]; left; exact hl
-      · rw [if_neg hneg]
-        have hge : s.n ≤ id' := hp.2 (by omega)
-        have hnot : id' ∉ s.unanswered := fun hm => by have := h.un_lt _ hm; omega
-        have herase : s.unanswered.erase id' = s.unanswered := List.erase_of_not_mem hnot
-        have base : VInv { s with pending := s.pending.filter (fun e => e.1 != id'),
-                                  unanswered := s.unanswered.erase id' } := by
-          refine ⟨by rw [herase]; exact h.un_nodup, by rw [herase]; exact h.un_lt, ?_, h.rel, h.log_nodup,
-            by rw [herase]; exact h.log_lt, by rw [herase]; exact h.cover⟩
-          intro e he
-          rw [herase]
-          exact h.pend e (List.mem_of_mem_filter he)
-        split
-        · exact inv_congr base rfl rfl rfl rfl rfl
-        · exact base
-    -- completion or next challenge
-    simp only []
-    split
-    · refine inv_congr core ?_ ?_ ?_ ?_ ?_ <;> rfl
-    · exact inv_sendNext _ core honesty
+    exact inv_finish _ (inv_afterAnswer s h id' r hc hmem) honesty
 
 theorem inv_run (n : Nat) (evs : List VEvent) : VInv (run n evs) := by
   unfold run
@@ -142,5 +140,153 @@ theorem inv_run (n : Nat) (evs : List VEvent) : VInv (run n evs) := by
     cases e with
     | response id r hon => exact inv_onResponse s h id r hon
     | timeout id => exact inv_onTimeout s h id
+
+
+/-! ### what the invariant gives -/
+
+theorem step_n (s : VState) (e : VEvent) : (step s e).n = s.n := by
+  cases e with
+  | timeout id => rfl
+  | response id r h =>
+    simp only [step, onResponse]
+    split
+    · rfl
+    · simp only [finish, afterAnswer, sendNext]
+      repeat' split <;> try rfl
+
+theorem run_n (n : Nat) (evs : List VEvent) : (run n evs).n = n := by
+  unfold run
+  suffices ∀ s, (evs.foldl step s).n = s.n from this _
+  induction evs with
+  | nil => intro s; rfl
+  | cons e tl ih => intro s; rw [List.foldl_cons, ih, step_n]
+
+/-- when nothing is unanswered, the counted challenges are exactly 0 … n-1, each once -/
+theorem log_perm_range (s : VState) (h : VInv s) (hdone : s.unanswered = []) :
+    (s.log.map Prod.fst).Perm (List.range s.n) := by
+  rw [List.perm_ext_iff_of_nodup h.log_nodup List.nodup_range]
+  intro a
+  simp only [List.mem_range]
+  constructor
+  · intro ha; exact (h.log_lt a ha).1
+  · intro ha
+    rcases h.cover a ha with hu | hl
+    · rw [hdone] at hu; simp at hu
+    · exact hl
+
+/-- state reached by honest answers: invariant + every counted answer is the prover's answer + every aggregate handed
+    to the completion callback is empty (liar path) or the complete profile -/
+structure Good (ans : Nat → Nat) (s : VState) : Prop where
+  inv : VInv s
+  honest : ∀ p ∈ s.log, p.2 = ans p.1
+  done : ∀ c ∈ s.completions, c = Rel.empty ∨ c = aggregate ((List.range s.n).map ans)
+
+theorem relmap_of_honest (ans : Nat → Nat) (s : VState) (h : VInv s) (hh : ∀ p ∈ s.log, p.2 = ans p.1) :
+    s.relmap = aggregate ((s.log.map Prod.fst).map ans) := by
+  rw [h.rel, List.map_map]
+  congr 1
+  apply List.map_congr_left
+  intro p hp
+  exact hh p hp
+
+theorem full_of_done (ans : Nat → Nat) (s : VState) (h : VInv s) (hh : ∀ p ∈ s.log, p.2 = ans p.1)
+    (hdone : s.unanswered = []) : s.relmap = aggregate ((List.range s.n).map ans) := by
+  rw [relmap_of_honest ans s h hh]
+  exact aggregate_perm ((log_perm_range s h hdone).map ans)
+
+theorem good_init (ans : Nat → Nat) (n : Nat) : Good ans (init n) :=
+  ⟨inv_init n, by simp [init], by simp [init]⟩
+
+theorem good_step (ans : Nat → Nat) (s : VState) (g : Good ans s) (e : VEvent)
+    (he : ∀ id r h, e = VEvent.response id r h → id < s.n → r = ans id) : Good ans (step s e) := by
+  cases e with
+  | timeout id => exact ⟨inv_onTimeout s g.inv id, g.honest, g.done⟩
+  | response id r hon =>
+    have hinv := inv_onResponse s g.inv id r hon
+    simp only [step] at hinv ⊢
+    unfold onResponse at hinv ⊢
+    split
+    · exact g
+    · rename_i id' hc hfind
+      rw [hfind] at hinv
+      simp only [] at hinv
+      have hmem : (id', hc) ∈ s.pending := List.mem_of_find?_eq_some hfind
+      have hid : id' = id := by
+        have := List.find?_some hfind
+        simpa using this
+      subst hid
+      have hA := inv_afterAnswer s g.inv id' r hc hmem
+      -- the log and completions after the answer
+      have hlogA : ∀ p ∈ (s.afterAnswer id' r hc).log, p.2 = ans p.1 := by
+        intro p hp
+        unfold afterAnswer at hp
+        simp only [] at hp
+        split at hp
+        · rename_i hneg
+          simp only [List.mem_append, List.mem_singleton] at hp
+          rcases hp with hp | rfl
+          · exact g.honest p hp
+          · have hin := (g.inv.pend _ hmem).1 hneg
+            exact he id' r hon rfl (g.inv.un_lt _ hin)
+        · split at hp <;> exact g.honest p hp
+      have hnA : (s.afterAnswer id' r hc).n = s.n := by
+        unfold afterAnswer; simp only []; repeat' split <;> try rfl
+      have hcA : ∀ c ∈ (s.afterAnswer id' r hc).completions,
+          c = Rel.empty ∨ c = aggregate ((List.range s.n).map ans) := by
+        intro c hc'
+        unfold afterAnswer at hc'
+        simp only [] at hc'
+        split at hc'
+        · exact g.done c hc'
+        · split at hc'
+          · simp only [List.mem_append, List.mem_singleton] at hc'
+            rcases hc' with hc' | rfl
+            · exact g.done c hc'
+            · left; rfl
+          · exact g.done c hc'
+      refine ⟨hinv, ?_, ?_⟩
+      · intro p hp
+        unfold finish at hp
+        split at hp
+        · exact hlogA p hp
+        · have : ((s.afterAnswer id' r hc).sendNext hon).log = (s.afterAnswer id' r hc).log := by
+            unfold sendNext; repeat' split <;> try rfl
+          rw [this] at hp; exact hlogA p hp
+      · have hnF : ((s.afterAnswer id' r hc).finish hon).n = s.n := by
+          rw [← hnA]; unfold finish sendNext; repeat' split <;> try rfl
+        rw [hnF]
+        intro c hc'
+        unfold finish at hc'
+        split at hc'
+        · rename_i hempty
+          simp only [List.mem_append, List.mem_singleton] at hc'
+          rcases hc' with hc' | rfl
+          · exact hcA c hc'
+          · right
+            have hd : (s.afterAnswer id' r hc).unanswered = [] := by simpa using hempty
+            rw [← hnA]
+            exact full_of_done ans _ hA hlogA hd
+        · have : ((s.afterAnswer id' r hc).sendNext hon).completions = (s.afterAnswer id' r hc).completions := by
+            unfold sendNext; repeat' split <;> try rfl
+          rw [this] at hc'; exact hcA c hc'
+
+theorem good_foldl (ans : Nat → Nat) (n : Nat) : ∀ (evs : List VEvent) (s : VState), s.n = n → Good ans s →
+    (∀ id r h, VEvent.response id r h ∈ evs → id < n → r = ans id) → Good ans (evs.foldl step s) := by
+  intro evs
+  induction evs with
+  | nil => intro s _ g _; exact g
+  | cons e tl ih =>
+    intro s hn g hon'
+    rw [List.foldl_cons]
+    apply ih (step s e) (by rw [step_n, hn])
+    · apply good_step ans s g e
+      intro id r h heq hlt
+      exact hon' id r h (by rw [heq]; simp) (by rw [← hn]; exact hlt)
+    · intro id r h hm hlt
+      exact hon' id r h (by simp [hm]) hlt
+
+theorem good_run (ans : Nat → Nat) (n : Nat) (evs : List VEvent)
+    (hon : ∀ id r h, VEvent.response id r h ∈ evs → id < n → r = ans id) : Good ans (run n evs) :=
+  good_foldl ans n evs (init n) rfl (good_init ans n) hon
 
 end Ipv8.C18
